@@ -261,12 +261,19 @@ def run(ck):
             continue
         pushes = [i for i in sp.walk(nd.get('body')) if sp.nodes[i].get('callee', '').endswith('::push_back')]
         if len(pushes) == 1:
-            coef_ok = True
+            # fresh coefficients for every secret byte: the coefficient vector is declared, and filled, inside the loop over
+            # the secret's bytes (a polynomial reused across bytes leaks secret[b] ^ secret[0] from a single share)
+            cvec = declref(sp, sp.receiver(pushes[0]))
+            from sa.paths import var_decl
+            byte_loops = [l for l in loops(sp) if sp.nodes[l]['k'] == 'ForStmt' and l != lp and sp.is_in(lp, l) and
+                          any(sp.nodes[j]['k'] == 'DeclRefExpr' and sp.nodes[j].get('d') == sp.params[0]['d'] for j in sp.walk(sp.nodes[l].get('cond')))]
+            vd = var_decl(sp, cvec) if cvec is not None else None
+            coef_ok = bool(byte_loops) and vd is not None and sp.is_in(vd, sp.nodes[byte_loops[0]]['body'])
             srcs = value_sources(sp, sp.call_args(pushes[0])[0])
             rnd_ok = any('random_device::operator()' in sp.nodes[j].get('callee', '') or 'uniform_int_distribution' in sp.nodes[j].get('callee', '')
                          for j in srcs)
     ck.ob('C10.split', 'C10.split/threshold-1-coefficients', coef_ok, sp.loc(),
-          'each secret byte gets exactly threshold-1 coefficients (loop degree = 1 .. threshold-1, one push_back each)')
+          'each secret byte gets its own threshold-1 coefficients: the vector is declared and filled (degree = 1 .. threshold-1, one push_back each) inside the loop over the secret bytes')
     ck.ob('C10.split', 'C10.split/coefficients-random', rnd_ok, sp.loc(), 'every coefficient is drawn from std::random_device')
     ev = sp.calls(NS + '(anonymous namespace)::evaluate_polynomial')
     ck.floor('C10.split', 'evaluate_polynomial call in split', len(ev), 1)
